@@ -170,6 +170,26 @@ let run_P caseno tk =
   let labels = List.init nops (fun k -> "o" ^ string_of_int (k + 1)) in
   Printf.printf "P %d %s\n" caseno (pr_transcript labels (p_program tys es ss ops))
 
+(* family R: prog <mapping value tokens> arrN nops (op tokens)* ; ops: 0 ctor-from-mapping kind | 1 ctor-from-container kind n | 2 copy i | 3 move i
+   | 4 assign i j | 5 write i R idx* x | 6 write-view i R idx* x *)
+let run_R caseno tk =
+  let _prog = next_int tk in
+  let (sv, _) = read_mval tk in
+  let arrn = opt_of_tok (next tk) in
+  let nops = next_int tk in
+  let ni tk = nat_of_int (next_int tk) in
+  let ops = take_n tk nops (fun tk ->
+    match next_int tk with
+    | 0 -> let k = ni tk in RCtorMap k
+    | 1 -> let _k = next_int tk in let n = ni tk in RCtorCtr n
+    | 2 -> RCopy (ni tk)
+    | 3 -> RMove (ni tk)
+    | 4 -> let a = ni tk in let b = ni tk in RAssign (a, b)
+    | 5 -> let i = ni tk in let r = next_int tk in let idx = take_n tk r next_z in let x = next_z tk in RWrite (i, idx, x)
+    | _ -> let i = ni tk in let r = next_int tk in let idx = take_n tk r next_z in let x = next_z tk in RWriteView (i, idx, x)) in
+  let labels = List.init nops (fun k -> "o" ^ string_of_int (k + 1)) in
+  Printf.printf "R %d %s\n" caseno (pr_transcript labels (r_program sv arrn ops))
+
 (* family X: prog kind ... *)
 let run_X caseno tk =
   let _prog = next_int tk in
@@ -211,6 +231,7 @@ let () =
           | "S" -> run_S !caseno tk
           | "A" -> run_A !caseno tk
           | "P" -> run_P !caseno tk
+          | "R" -> run_R !caseno tk
           | f -> Printf.printf "%s %d unknown-family\n" f !caseno);
          incr caseno
        end
